@@ -3,7 +3,7 @@ ATTRS = ['raw', 'scheme', 'authority', 'path', 'query', 'fragment', 'userinfo', 
          'query_map', 'url', 'encoding', 'hostname_with_port']
 SEEDS = ['http://example.com/a?b=c', 'http://h/?a=1&b', 'mailto:someone@example.com', 'http://\ud800@h/p', 'http://u:\udcff@h/', 'http://[::1%[x]/',
          'http://[::1%a b]/p', 'http://[fe80::1%25eth0]/', 'localhost:8080/x', '//example.com/x', 'http://h:65536/', 'http://h:-1/', 'http://a..b/',
-         'http://' + 'a' * 70 + '.com/', 'ftp://u:p@h/%2Fetc', 'http://h/%aF', 'http://０ｘ１０/', 'http://0x7f.1/', 'HTTP://EXAMPLE.COM:80/./a/../b//c']
+         'http://' + 'a' * 70 + '.com/', 'ftp://u:p@h/%2Fetc', 'http://{host}..example.com/', 'http://{}{}\ud800.example.com/', 'http://{0.x}..com/', 'http://{1}' + 'a' * 70 + '.com/', 'http://%s..com/', 'http://{', 'http://}..x/', 'http://h/%aF', 'http://０ｘ１０/', 'http://0x7f.1/', 'HTTP://EXAMPLE.COM:80/./a/../b//c']
 
 
 def _probe(url, encoding='utf-8'):
